@@ -15,3 +15,4 @@ func verifSuite12(hs *serverHandshakeState, s *cipherSuite) *cipherSuite        
 func verifGroup12(config *Config, g CurveID) CurveID                           { return g }
 func verifECDHPart(hs *serverHandshakeStateTLS13, g CurveID, data []byte) (CurveID, []byte) { return g, data }
 func verifHybridPart(hs *serverHandshakeStateTLS13, g CurveID, clientShare []byte) error { return nil }
+func verifTicketNonce(c *Conn, suite *cipherSuiteTLS13, m *newSessionTicketMsgTLS13, psk []byte) []byte { return psk }
